@@ -25,7 +25,7 @@ NOT_STEADY = '%sServerClosing(_) | %sClientException | %sClientClosed' % (CS, CS
 
 
 def run(ctx):
-    panics.inventory(ctx, 'R20.1', 'no undischarged panic-capable site reachable from the event dispatch', roots=[HSE], scope=None, floor_sites=20)
+    panics.inventory(ctx, 'R20.1', 'no undischarged panic-capable site reachable from the event dispatch', roots=['io_loop::IoLoop::run_connection'], scope=None, floor_sites=20)
 
     with ctx.rule('R20.2', 'stale wake-ups for dropped channel-0 sources and removed slots evaluate to Ok(()) with no effect', floor=7) as r:
         rows = P.table(ctx, HSE, ['self', 'stream', 'state', 'event'])
@@ -70,6 +70,9 @@ def run(ctx):
     with ctx.rule('R20.6', "the close's error reaches the requests that lose the race: Connection::close reports the I/O thread's result, a failed send reads the queued error (shared with C05/C09)", floor=9) as r:
         A.include(ctx, r, 'c05', 'R05.5')
         A.include(ctx, r, 'c09', 'R09.3')
+
+    with ctx.rule('R20.7', "requests that lose the race fail with the close's own error: notification tables of both close directions (shared with C08)", floor=2) as r:
+        A.include(ctx, r, 'c08', 'R08.4')
 
     with ctx.rule('R20.4', 'token domain: every registered token has an arm', floor=1) as r:
         ok, why = panics.token_domain(ctx)
